@@ -137,10 +137,10 @@ def main(tier, replay=None):
         eff = effect_of[json.dumps(scn, sort_keys=True)]
         k, mode, _hb = r["points"][0]
         kind, role, _b = eff[k] if k < len(eff) else ("?", "?", 0)
-        if r.get("last_crash"):      # the crash whose consequences are judged is the last one before the final restart
-            kind, role = r["last_crash"]["effect"]
-            mode = r["last_crash"]["mode"]
-        label = f"effect:{kind}:{role};mode:{mode}" + (";double" if len(r["points"]) > 1 else "")
+        label = f"effect:{kind}:{role};mode:{mode}"
+        if len(r["points"]) > 1:     # a chain of crashes: every one of them is named (the consequences of the first persist)
+            lc = r.get("last_crash")
+            label += (f"+effect:{lc['effect'][0]}:{lc['effect'][1]};mode:{lc['mode']}" if lc else "+effect:?") + ";double"
         if r.get("nothing_to_restart") or r.get("not_reached"):
             continue
         reached += 1
